@@ -159,7 +159,8 @@ def run_tlc(module, cfg, workers=8, env=None, timeout=3600, simulate=None, heap=
     property violation (res.violation is set); raises ToolError on timeouts and parse errors."""
     ensure_dirs()
     meta = tempfile.mkdtemp(prefix="tlc-", dir=WORK)
-    jopts = ["-XX:+UseParallelGC", f"-Xmx{heap}"]
+    # (TLC creates an empty directory tlc-<n> under java.io.tmpdir at every start: keep it inside the metadir that is removed)
+    jopts = ["-XX:+UseParallelGC", f"-Xmx{heap}", f"-Djava.io.tmpdir={meta}"]
     if stack:
         jopts.append(f"-Xss{stack}")
     if deque:
